@@ -712,7 +712,10 @@ class PeerConnection(DataConnection):
             of data is received
         """
         bytes_received = 0
-        while True:
+        # Nothing to receive when the expected amount of bytes is 0 (empty file
+        # or the local file is already complete): waiting for data would only
+        # end in a read timeout
+        while bytes_received < filesize:
             bytes_to_read = await self.download_rate_limiter.take_tokens()
             data = await self.receive_data(bytes_to_read)
             if data is None:
